@@ -151,8 +151,9 @@ class Chain:
             a = [u(x) for x in args]
             if fn == "issubclass" and len(a) == 2 and a[0] == "spec.origin_type":
                 return f"(uf_sub f {self.ucls(args[1])})"
-            if fn == "ensure_generic_collection_subclass" and len(a) == 2 and a[0] == "spec":
-                return f"(uf_sub f {self.ucls(args[1])} && uf_generic f)"
+            if fn == "ensure_generic_collection_subclass" and len(a) >= 2 and a[0] == "spec":
+                subs = " || ".join(f"uf_sub f {self.ucls(x)}" for x in args[1:])
+                return f"(({subs}) && uf_generic f)"
             if fn == "ensure_generic_mapping" and len(a) == 3 and a[:2] == ["spec", "args"]:
                 return f"(uf_sub f {self.ucls(args[2])} && uf_generic f)"
             if fn == "ensure_generic_collection" and a == ["spec"]:
@@ -184,28 +185,35 @@ class Chain:
                 elif u(x) == "spec.expression":
                     out.append("<E>")
                 elif isinstance(x, ast.Name) and x.id in env:
-                    out.append("<T>")
+                    out.append("<T>" if x.id == "default_type" else "<I>")
                 else:
                     raise Unsupported(f"K118a: unknown template hole {u(x)[:60]}")
             else:
                 raise Unsupported("K118a: formatted hole with conversion / format spec")
         return "".join(out)
 
+    NONE = "UDNone"
+    DIRECT = {"unpack_named_tuple(spec)": "UDNamedTuple", "unpack_tuple(spec, args)": "UDTuple",
+              "unpack_typed_dict(spec)": "UDTypedDict"}
+    REGISTRY = "UnpackerRegistry.get"
+    LOCAL_DEFS = ("inner_expr",)
+
+    def classify(self, tpl: str) -> str:
+        return classify(tpl)
+
     def ret(self, e, env: set) -> str:
         if e is None or (isinstance(e, ast.Constant) and e.value is None):
-            return "UDNone"
+            return self.NONE
         txt = u(e)
-        direct = {"unpack_named_tuple(spec)": "UDNamedTuple", "unpack_tuple(spec, args)": "UDTuple",
-                  "unpack_typed_dict(spec)": "UDTypedDict"}
-        if txt in direct:
-            return direct[txt]
+        if txt in self.DIRECT:
+            return self.DIRECT[txt]
         if isinstance(e, ast.Call) and u(e.func) == "TypeMatchEligibleExpression" and len(e.args) == 1 and not e.keywords:
             e = e.args[0]
-        return classify(self.template(e, env))
+        return self.classify(self.template(e, env))
 
     def block(self, stmts, env: set) -> str:
         if not stmts:
-            return "UDNone"         # falls off the end: the function returns None
+            return self.NONE        # falls off the end: the function returns None
         s0, rest = stmts[0], list(stmts[1:])
         if isinstance(s0, ast.Return):
             return self.ret(s0.value, env)
@@ -222,10 +230,13 @@ class Chain:
             t, v = s0.targets[0].id, s0.value
             if t == "args" and u(v) == "get_args(spec.type)":
                 return self.block(rest, env)
-            if isinstance(v, ast.Call) and u(v.func) == "spec.builder.get_type_name_identifier":
+            if isinstance(v, ast.Call) and u(v.func) == "spec.builder.get_type_name_identifier" and t == "default_type":
                 return self.block(rest, env | {t})     # a type name pasted into the template, not a value
-        if isinstance(s0, ast.FunctionDef) and s0.name == "inner_expr":
-            check_inner_expr(s0)
+            if isinstance(v, ast.Call) and u(v.func) == "inner_expr":
+                return self.block(rest, env | {t})     # the code of an item (un)packer
+        if isinstance(s0, ast.FunctionDef) and s0.name in self.LOCAL_DEFS:
+            if s0.name == "inner_expr":
+                check_inner_expr(s0, self.REGISTRY)
             return self.block(rest, env)
         raise Unsupported(f"K118a: statement {u(s0)[:70]}")
 
@@ -254,13 +265,13 @@ def classify(tpl: str) -> str:
     raise Unsupported(f"K118a: unknown code template {tpl[:100]}")
 
 
-def check_inner_expr(fn: ast.FunctionDef):
+def check_inner_expr(fn: ast.FunctionDef, registry: str = "UnpackerRegistry.get"):
     rets = [n for n in ast.walk(fn) if isinstance(n, ast.Return)]
     if not rets:
         raise Unsupported("K118a: inner_expr has no return")
     for r in rets:
         v = r.value
-        ok = (isinstance(v, ast.Call) and u(v.func) == "UnpackerRegistry.get" and len(v.args) == 1
+        ok = (isinstance(v, ast.Call) and u(v.func) == registry and len(v.args) == 1
               and isinstance(v.args[0], ast.Call) and u(v.args[0].func) == "spec.copy"
               and any(k.arg == "expression" and u(k.value) == "v_name" for k in v.args[0].keywords))
         if not ok:
@@ -290,17 +301,19 @@ def holes(e: ast.expr, names: dict) -> str:
     return "".join(out)
 
 
-def unpacker_names_ok(fn: ast.FunctionDef):
+def unpacker_names_ok(fn: ast.FunctionDef, one="unpacker", many="unpackers", registry="UnpackerRegistry.get"):
     """`unpacker` is always a registry result; `unpackers` only collects them"""
     for n in ast.walk(fn):
-        if isinstance(n, ast.Assign) and any(u(t) == "unpacker" for t in n.targets):
+        tgts = [u(t) for t in n.targets] if isinstance(n, ast.Assign) else (
+            [u(n.target)] if isinstance(n, (ast.AnnAssign, ast.AugAssign)) else [])
+        if one in tgts:
             v = n.value
-            if not (isinstance(v, ast.Call) and u(v.func) == "UnpackerRegistry.get"):
-                raise Unsupported(f"K118a: {fn.name}: unpacker = {u(v)[:60]}")
-        if isinstance(n, ast.Assign) and any(u(t) == "unpackers" for t in n.targets) and u(n.value) != "[]":
-            raise Unsupported(f"K118a: {fn.name}: unpackers = {u(n.value)[:60]}")
-        if isinstance(n, ast.Call) and u(n.func) == "unpackers.append" and [u(a) for a in n.args] != ["unpacker"]:
-            raise Unsupported(f"K118a: {fn.name}: {u(n)[:60]}")
+            if not (isinstance(v, ast.Call) and u(v.func) == registry):
+                raise Unsupported(f"K118: {fn.name}: {one} = {u(v)[:60]}")
+        if many in tgts and (n.value is None or u(n.value) != "[]"):
+            raise Unsupported(f"K118: {fn.name}: {many} = {u(n.value)[:60] if n.value else None}")
+        if isinstance(n, ast.Call) and u(n.func) == many + ".append" and [u(a) for a in n.args] != [one]:
+            raise Unsupported(f"K118: {fn.name}: {u(n)[:60]}")
 
 
 def tuple_results(fn: ast.FunctionDef) -> list[str]:
